@@ -235,7 +235,9 @@ def run_once(s, r, sn, groups, prefix, extra_env=None, on_group_complete=None):
             if on_group_complete:
                 on_group_complete(c, k, gi)
         # anything still arriving after the plan (mutants), then the end of the run
-        t_end = time.time() + 20
+        # after a failure the run is expected to end by itself within milliseconds; a run that keeps
+        # going (and then blocks on children nobody releases) is cut off after a short horizon
+        t_end = time.time() + (5 if failed else 20)
         while not p.done() and time.time() < t_end:
             c.pump(0.02)
             note()
